@@ -111,7 +111,10 @@ func (k *KVStore) Compaction() (bool, error) {
 				if len(k.tables) == 1 {
 					break
 				}
-				delete(k.tablesByCoefficient, t.Coefficient())
+				// A recycled table is not in tablesByCoefficient anymore: evictTable
+				// removed it and Reset cleared its coefficient to zero. Deleting by
+				// t.Coefficient() here would drop the live table #0 from the index
+				// and hide its keys from Scan.
 				k.tables = append(k.tables[:i], k.tables[i+1:]...)
 				i--
 			}
